@@ -31,6 +31,8 @@ def scheme_term_scaled(pen, scale):
 
 
 class Scores(Suite):
+    bench_rate = 0.1
+    scribbled_rate = 0.1     # share of the cases where the caller scribbled on what the read accessors returned (algos.scribble)
     seasoned_rate = 0.2
     names_rate, past_rate = 0.08, 0.08     # hostile element names / datasets with a past (gen.decorate_cases)
     name = "scores"
@@ -89,12 +91,23 @@ class Scores(Suite):
         random.seed(99)
         ds, sc = mk(case["D"], case["s"])
         out = {"D": gen.observe(ds), "runs": []}
+        if case.get("seasoned"):
+            # other Consensus objects lived before, built directly (no attribute dictionary) and read: whatever they share with later
+            # objects (a default dictionary, a class-level store) is then in place
+            try:
+                from corankco.consensus import Consensus
+                first = next((r for r in ds.rankings if len(r) > 0), None)
+                if first is not None:
+                    other = ScoringScheme([[3 * x for x in case["s"][0]], [3 * x for x in case["s"][1]]])
+                    Consensus([first], ds.unified_dataset() if not ds.is_complete else ds, other).kemeny_score
+            except Exception:
+                pass
         for aid, mkalg, lazy in ALGS:
             try:
                 alg = mkalg()
                 if case.get("seasoned"):
                     seasoned(alg, case["D"], case["s"])
-                cons = alg.compute_consensus_rankings(ds, sc, case["one"])
+                cons = alg.compute_consensus_rankings(ds, sc, case["one"], True) if case.get("bench") else alg.compute_consensus_rankings(ds, sc, case["one"])
             except Exception as e:
                 if type(e).__name__ in ("IncompatibleArgumentsException", "ScoringSchemeNotHandledException",
                                         "InompleteRankingsIncompatibleWithScoringSchemeException"):
